@@ -127,11 +127,16 @@ def case_matrix(rng, tier):
     act = np.sort(rng.choice(n, na, replace=False))
     Ka = eig.random_spd(rng, na, 10 ** rng.uniform(1, 8), band=int(rng.integers(1, 5)) if rng.random() < 0.4 else None)
     us = gen.unit_scale(rng)
+    net = bool(rng.random() < 0.25)
+    if net:
+        # lumped spring network: columns of the nodes without a ground spring sum to exactly zero
+        Ka = eig.spring_net(rng, na)
+        us = float(2.0 ** rng.integers(-20, 21)) if rng.random() < 0.3 else 1.0
     K = sp.csr_matrix(eig.embed(Ka, n, act) * us)
     fs = float(10 ** rng.uniform(-14, 8)) if rng.random() < 0.4 else 1.0      # load magnitude independent of the stiffness magnitude
     f1 = rng.normal(size=n) * fs; f2 = rng.normal(size=n) * fs
     c = Case({'obj': 'matrix', 'n': n, 'n_active': na, 'unit_scale': us, 'load_scale': fs})
-    c.tag('obj:matrix', 'nullcols' if na < n else 'full')
+    c.tag('obj:matrix', 'nullcols' if na < n else 'full', 'k:spring_net' if net else 'k:random_spd')
     K0 = K.copy(); f1b = f1.copy()
     x1 = solve(K, f1, silent=True)
     x2 = solve(K, f2, silent=True)
